@@ -181,7 +181,69 @@ def s07_crop(ctx):
     return res
 
 
-STREAMS = [s07_crop]
+def s07_generated(ctx):
+    """translator validation: the REGENERATED dissolve_multi_part_traces (frame branch, compiled into gen_c07) vs the real function"""
+    import_fractopo()
+    import geopandas as gpd
+    from shapely.geometry import LineString, MultiLineString, Point
+
+    from fractopo.general import dissolve_multi_part_traces
+    from harness.common import parse_resp, rng_for
+
+    res = StreamResult("S07-generated", rule="regenerated dissolve_multi_part_traces (Lean, compiled) vs the real function on frames of 1..7 rows: LineStrings, MultiLineStrings of "
+                       "2..4 parts, an EMPTY MultiLineString (ValueError), a Point row (TypeError when something is dissolved); every index kind; compared: the sequence of "
+                       "(row data, part) or the exception; non-trivial = a multi-part row is dissolved or an exception is raised")
+    if ctx.gen is None:
+        res.note = "gen_c07 not built (a generated module is broken): skipped"
+        res.skipped["generated_driver_not_built"] = 1
+        return res
+    rng = rng_for(ctx.seed, "S07g")
+    cases, reqs = [], []
+    for _ in range(budget(ctx.tier, 300, 5000)):
+        codes = [rng.choice([1, 1, 1, 2, 3, 4, 10, 9]) if rng.random() < 0.9 else 1 for _ in range(rng.randint(1, 7))]
+        if codes.count(10) + codes.count(9) > 1:
+            continue
+        cases.append(codes)
+        reqs.append("gdissolve rows=" + ";".join(f"{u}:{c}" for u, c in enumerate(codes)))
+    resps = ctx.gen.parallel(reqs)
+    for codes, req, resp in zip(cases, reqs, resps):
+        res.evaluations += 1
+        geoms = []
+        for u, c in enumerate(codes):
+            if c == 1:
+                geoms.append(LineString([(u * 10.0, 0.0), (u * 10.0, 1.0)]))
+            elif c == 9:
+                geoms.append(Point(u * 10.0, 0.0))
+            elif c == 10:
+                geoms.append(MultiLineString([]))
+            else:
+                geoms.append(MultiLineString([[(u * 10.0 + j + 1, 0.0), (u * 10.0 + j + 1, 1.0)] for j in range(c)]))
+        idx = rng.choice([list(range(len(codes))), [7 * i + 3 for i in range(len(codes))], [i // 2 for i in range(len(codes))]])
+        frame = gpd.GeoDataFrame({"uid": list(range(len(codes)))}, geometry=geoms, index=idx)
+        try:
+            out = dissolve_multi_part_traces(frame)
+            want = []
+            for uid, g in zip(out["uid"], out.geometry.values):
+                c = codes[uid]
+                if isinstance(g, LineString):
+                    part = 0 if c == 1 else int(round(g.coords[0][0] - uid * 10.0))
+                    want.append(f"{uid}:1:{part}")
+                elif isinstance(g, Point):
+                    want.append(f"{uid}:9:0")
+                else:
+                    want.append(f"{uid}:{c}:0")
+            want = "rows=" + ";".join(want)
+        except (ValueError, TypeError) as e:
+            want = "err=" + type(e).__name__
+        res.nontrivial += int(any(c not in (1, 9) for c in codes))
+        if resp.strip() != want:
+            res.disagreements.append(Disagreement("S07-generated", {"stream": "S07-generated", "request": req, "index": idx}, resp.strip(), want, None,
+                                                  "regenerated dissolve_multi_part_traces (Lean) and the Python function disagree"))
+    res.samples = [{"request": reqs[0], "response": resps[0][:200]}] if reqs else []
+    return res
+
+
+STREAMS = [s07_crop, s07_generated]
 
 
 def _rebuild(case):
@@ -203,6 +265,9 @@ def _rebuild(case):
 
 
 def replay(ctx, stream, case):
+    if stream == "S07-generated":
+        r = s07_generated(ctx)
+        return r.disagreements[0] if r.disagreements else None
     import_fractopo()
     gdf, areas = _rebuild(case)
     req = f"clip areas={area_rows(areas)} traces={lines([list(g.coords) for g in gdf.geometry.values])}"
